@@ -1020,7 +1020,12 @@ def _deco_keeps_signature(d) -> bool:
     return t.split("(")[0].split(".")[-1] in ("lru_cache", "cache", "wraps", "staticmethod", "classmethod")
 
 
-def _positional_calls(tree):
+def module_signatures(mod):
+    """public name of _module_signatures (core builds the package-wide table from it)"""
+    return _module_signatures(mod)
+
+
+def _positional_calls(tree, extern=None):
     """N22: in a call to a function / method defined in the same module (by name, through self. / cls., or ClassName.method for static and class
     methods), keyword arguments that name the next positional parameters are written positionally, in the callee's order:
         f(a, c=3, b=2) -> f(a, 2, 3)        (def f(a, b, c))
@@ -1028,8 +1033,15 @@ def _positional_calls(tree):
     if not isinstance(tree, ast.Module):
         return tree
     funcs, classes = _module_signatures(tree)
+    # names imported from other modules of the package (core passes their signatures): they never shadow a local definition
+    for nm, sig in (extern or {}).items():
+        if sig[0] == "func" and nm not in funcs and nm not in classes:
+            funcs[nm] = sig[1]
+        elif sig[0] == "class" and nm not in classes and nm not in funcs:
+            classes[nm] = sig[1]
     if not funcs and not classes:
         return tree
+    bound_elsewhere = _module_bound_names(tree) - set(classes) - {n.name for n in tree.body if isinstance(n, (ast.FunctionDef, ast.AsyncFunctionDef))}
 
     class R(ast.NodeTransformer):
         def __init__(self):
@@ -1044,12 +1056,14 @@ def _positional_calls(tree):
 
         def visit_Call(self, c):
             self.generic_visit(c)
-            if any(isinstance(a, ast.Starred) for a in c.args) or any(k.arg is None for k in c.keywords) or not c.keywords:
+            if any(isinstance(a, ast.Starred) for a in c.args) or any(k.arg is None for k in c.keywords):
                 return c
             f = c.func
             sig = None
-            if isinstance(f, ast.Name) and f.id in funcs:
+            if isinstance(f, ast.Name) and f.id in funcs and f.id not in bound_elsewhere:
                 sig = funcs[f.id][:2]
+            elif isinstance(f, ast.Name) and f.id in classes and f.id not in bound_elsewhere and "__init__" in classes[f.id]:
+                sig = classes[f.id]["__init__"][:2]
             elif isinstance(f, ast.Attribute) and isinstance(f.value, ast.Name):
                 if f.value.id in ("self", "cls") and self.cls and f.attr in classes.get(self.cls, {}):
                     sig = classes[self.cls][f.attr][:2]
@@ -1058,6 +1072,7 @@ def _positional_calls(tree):
             if sig is None or sig[1]:
                 return c
             params = sig[0]
+            c._params = list(params)   # core.kwarg / core.bound read a positional argument of a resolved callee by its parameter name
             kws = {k.arg: k for k in c.keywords}
             moved = []
             i = len(c.args)
@@ -1072,9 +1087,9 @@ def _positional_calls(tree):
     return R().visit(tree)
 
 
-def normalise(tree: ast.AST) -> ast.AST:
+def normalise(tree: ast.AST, extern=None) -> ast.AST:
     tree = _canonical_imports(tree)
-    tree = _positional_calls(tree)
+    tree = _positional_calls(tree, extern)
     tree = Normalise().visit(tree)
     tree = _unroll_table_loops(tree)
     tree = _param_defaults(tree)
